@@ -99,6 +99,8 @@ func (r *Report) Import(prefix, target, statement string, floor int, fn func()) 
 }
 
 func (r *Report) add(rule, fn, construct, pos string, st Status, fact string) {
+	// reports quote printed forms cut to a length: never let a cut character through (evidence must be valid UTF-8)
+	fact = strings.ToValidUTF8(fact, "")
 	if r.impPrefix != "" && strings.HasPrefix(rule, r.impPrefix) {
 		construct = rule + ":" + construct
 		rule = r.impTarget
